@@ -307,6 +307,16 @@ class C17(Prop):
                                      'n': 4, 're': [], 'shape': 'plain', 'perm': 0.9, 'feed': 'disjoint',
                                      'stagger': [0, 0, 0, 0], 'structs': False})
                     ctx.count('class:discrete-only-operators-in-dense-time')
+        # bounded until / unless of every small window (also the degenerate [0,0]) in the dense-time online monitor,
+        # with and without pastify(): not supported, so rejected
+        for o in ('until', 'unless'):
+            for iv in ((0, 0), (0, 1), (1, 1), (1, 2)):
+                for f in (N(o, px, py, ivl=iv), N('always', N(o, px, py, ivl=iv), ivl=(0, 1)), N('and', px, N(o, N('rise', px), py, ivl=iv))):
+                    for kind in ('ct_on_pastified',):
+                        self.check(ctx, {'formula': f, 'kind': kind, 'data': lang.gen_trace(ctx.rng, ['x', 'y', 'u_extra'], 6),
+                                         'n': 4, 're': [], 'shape': 'plain', 'perm': 0.9, 'feed': 'disjoint',
+                                         'stagger': [0, 0, 0, 0], 'structs': False})
+                        ctx.count('class:bounded-until-in-dense-online')
         for kind in ('dt_off', 'dt_on', 'ct_off', 'ct_on'):
             for shape, k in self.WIDE:
                 if shape in ('neg', 'abs', 'sum', 'not', 'xor', 'mix'):
